@@ -36,6 +36,9 @@ _prev_list = R.specs.get("builtins.list")
 def list_of_resources(E, st, args, kw):
     if args and isinstance(args[0], VObj) and args[0].cls == "resource_set":
         src = args[0]
+        c = getattr(E, "cur_contract", None)
+        if c is not None and hasattr(c, "on_snapshot"):
+            c.on_snapshot(E, st)
         return [Res(st, st.new_obj("resource_set", n=st.get(src, "n"), elems=st.get(src, "elems")))]
     return _prev_list(E, st, args, kw)
 
@@ -46,13 +49,15 @@ class ConnClose(Contract):
     real_name = "Pyro5.socketutil.SocketConnection.close"
     props = ("C13", "C09")
     raises = {}      # close() never raises
-    trusted = ("a tracked resource's close() is user code (any Exception); resources are pairwise distinct objects other than None",
+    trusted = ("a tracked resource's close() is user code (any Exception); resources are pairwise distinct objects other than None; the tracked set holds weak references: what "
+               "keeps a resource alive until close() reaches it may be a session instance of this very connection",
                "socket.close() does not raise; socket.shutdown() may raise OSError")
 
     def setup(self, E, st):
         conn = st.new_obj("Pyro5.socketutil.SocketConnection", sock=new_socket(E, st, "csock"),
                           keep_open=VBool(z3.Const("keep_open", BoolS)))
         st.set(conn, "pyroInstances", new_odict(st, "session_instances"))
+        self.instances_ref = st.get(conn, "pyroInstances").ref
         n = z3.Int("n_resources")
         elems = z3.Const("resources", z3.ArraySort(IntS, U))
         i, j = z3.Ints("i!r j!r")
@@ -84,7 +89,18 @@ class ConnClose(Contract):
             st.set(live, "elems", fresh("tracked_elems_after_user_close", z3.ArraySort(IntS, U)))
             st.assume(st.get(live, "n").e >= 0)
 
+    def instances_in_place(self, st):
+        pi = st.get(self.conn, "pyroInstances")
+        return z3.BoolVal(isinstance(pi, VObj) and pi.ref == self.instances_ref)
+
+    def on_snapshot(self, E, st):
+        # the tracked set holds WEAK references: a resource whose only strong reference is an attribute of a session instance (the natural way to write a
+        # per-session resource) leaves the set the moment the session instances are dropped - so they must still be in place when the resources are collected
+        E.oblige(st, "the session instances are still in place when the tracked resources are collected for closing (a resource kept alive only by its session "
+                     "instance would otherwise vanish from the weak set unclosed)", self.instances_in_place(st), kind="pre")
+
     def on_user_call(self, E, st, target, args, kwargs, kind):
+        E.oblige(st, "... and while the resources are being closed", self.instances_in_place(st), kind="pre")
         t = target.e
         if z3.is_app(t) and t.decl().name() == "close_method_of":
             r = t.arg(0)
